@@ -313,6 +313,12 @@ theorem SRel.doc? {s s' : RState} (h : SRel s s') (r : NodeId) : OptRel DRel (s.
   unfold RState.doc?
   exact find?_rel (R := DRel) (fun d => d.root == r) (fun a b hab => by simp only [hab.1]) _ _ h.docs
 
+theorem SRel.draftOf {s s' : RState} (h : SRel s s') (r : NodeId) : s'.draftOf r = s.draftOf r := by
+  have := h.doc? r
+  unfold RState.draftOf
+  cases h1 : s.doc? r <;> cases h2 : s'.doc? r <;> rw [h1, h2] at this <;>
+    first | exact this.elim | rfl | exact this.2.1
+
 theorem SRel.info? {s s' : RState} (h : SRel s s') (root id : NodeId) : s'.info? root id = s.info? root id := by
   have := h.doc? root
   unfold RState.info?
@@ -627,7 +633,8 @@ theorem resolveRefsLoop_rel (env : Env) (st' : Store) (hst : permStore env.st st
         · exact h
       · intro s1 s1' hs1
         refine ResRel.bind (R := SRel) ?_ ?_
-        · split
+        · rw [hs1.draftOf root]
+          split
           · refine (resolveRef_rel env st' hst hn recDoc recDoc' hrec root hs1 id n.dynamicRef).bind ?_
             intro a b hab
             obtain ⟨o, sa⟩ := a
